@@ -407,6 +407,7 @@ def check(m, run):
     # the knot vectors that are compared are the ones the user gave: no setter normalises the knots of a shape created with normalize_kv=False
     from .. import skel_drivers as _sd
     _sd.ks2(m, run)
+    _sd.sc2(m, run)        # ... and the control points that are compared are the ones given: nothing is rounded on the way in, whatever the precision
     # an edit of one shape through its public setters reaches its own compared storage and nobody else's: the setters store fresh
     # structures (no sharing with the caller or with another shape built from the same lists) and never drop an assignment
     from . import c09
